@@ -12,8 +12,8 @@ VERIF = os.path.join(os.path.dirname(os.path.abspath(__file__)), "..")
 TEXT = {
     "C01": ("Lean theorem C01_restart_exact: for every state reachable from an empty directory by open, any API calls and any number of earlier restarts (disk driven only by the effects the model emits through the BufWriter model; any geometry with B <= 65542, any buffer capacity, any policy), dropping the log and opening again succeeds and yields observationally the same queues (names, records incl. payloads and file handles, next positions); corollaries C01_no_resurrection, C01_no_loss, C01_obs (composes with the C05 specification). Pillars: C01_journal (GC suffix), C07_roundtrip/decode_encode (codec), read_disk/gc_disk (image = layout of the journal). Hypothesis: every journal entry serialises (positions < 2^64, names < 64 KiB: C07.WF). Tied to the code by the per-call effect/byte-hash/directory-digest/state correspondence, the restart oracle on the real library and the executable journal invariant.",
             "Lean 4 proof (reachability invariant over log+journal+disk, codec round-trip, GC suffix simulation) + differential correspondence"),
-    "C02": ("Lean theorems C02_torn_tail (for EVERY byte cut of the written stream, reading the zero-filled crash image delivers a prefix of whole entries - m or m+1 of them, m+1 only when the lost bytes were zeros anyway - never a partial or altered entry; mid-header, mid-payload, between frames, inside padding) and C02_resume (writing on from where recovery stopped gives a stream that reads back the recovered prefix plus the new entries: the torn remnant never swallows later entries), under the explicit TornOK hypothesis (a zero-filled changed payload fails its CRC). Plus unlink_after_sync / flush_then_unlink_image (file removal ordered after the flush) and C01_restart_exact (continuations behave as on a log that never crashed). Not yet proved: the multi-file lift of the torn-tail theorem and its composition with replay into one statement about `recover` of a CrashImage; that composition is enumerated: every effect-prefix x byte-cut image of generated histories is opened by the real library and the model and judged by the prefix-state oracle, with continuation + restart.",
-            "Lean 4 proof (byte-level torn-tail + resume, effect order) + crash-point enumeration, differential"),
+    "C02": ("Lean theorem C02_crash_atomic: for every state reachable from an empty directory (any calls, roll-overs, GC passes, restarts) at a call boundary with an empty BufWriter (flush-per-operation policy), for EVERY call in flight, EVERY prefix of its OS-level operations and EVERY byte cut of the write in progress (any buffer capacity / re-chunking; roll-over windows: next file absent, created empty, zero-filled; GC position entries; between any two unlinks), open of the crash image succeeds and the recovered queues agree with the state before the call or with the state after it on names, records (positions, payloads) and next positions (AbsEq = the C05 abstraction); C02_crash_atomic_exact: before the first unlink even the file handles agree; C02_second_crash(+_exact): the same for a crash during the effects of open itself. Hypotheses: entries serialise (C07.WF) and TornStep (a payload whose lost, zero-filled tail changed it fails its CRC = no collision). Usability after recovery: C02_resume (byte level, every cut), C02_recovered_usable_partial + clean_crash_points (the full invariant from which C01_restart_exact and this theorem derive is re-established at crash points that leave no torn remnant, no pre-created file and no partial unlink; for the others only the recovered queues are characterised) - that remaining part is enumerated by the crash campaign's continuation + restart oracle on the real library and the model. Finding recorded in DESIGN: between two unlinks, when an entry is longer than a whole WAL file, the recovered FILE HANDLE of its records can name an earlier file than live (safe side; not observable through records/positions).",
+            "Lean 4 proof (reachability invariant + torn-tail scan on the multi-file tape + GC suffix at every intermediate first file) + crash-point enumeration, differential"),
     "C03": ("Proved in Lean (partial): unlink_after_sync (+_open, +_split) — in the effects of every call and of open, every unlink is preceded "
             "by flush, fsync(file), fsync(dir) with no write in between; persist points — create/delete end synced, persist(a) is exactly "
             "its effects, Always(a)/due OnDelay(a) calls end flushed/synced; buffer_empty_of_flushedAtEnd and flush_then_unlink(_image) — "
